@@ -205,6 +205,32 @@ func (x *Exec) initCompAxioms(name string, t0 *Term) {
 	}
 }
 
+// initCompAxiomsWF: well-formedness of a havocked heap component (no allocation-order facts: it may
+// hold references to objects allocated since entry)
+func (x *Exec) initCompAxiomsWF(name string, t *Term) {
+	if t.S.K == KArray && t.S.Elem == SSlice && (strings.HasPrefix(name, "H$") || strings.HasPrefix(name, "C$")) {
+		r := Var("r?", SInt)
+		sel := App("select", SSlice, t, r)
+		x.vc.Assume(Forall([]*Term{r}, And(Ge(App("s-arr", SInt, sel), IntLit(0)),
+			Ge(App("s-off", SInt, sel), IntLit(0)), Ge(App("s-len", SInt, sel), IntLit(0)), Le(App("s-len", SInt, sel), App("s-cap", SInt, sel)),
+			Le(App("s-cap", SInt, sel), IntLit(1<<62)),
+			Implies(App("=", SBool, App("s-arr", SInt, sel), IntLit(0)), App("=", SBool, App("s-cap", SInt, sel), IntLit(0))))))
+	}
+	if s := t.S; s.K == KArray && s.Elem.K == KInt && (strings.HasPrefix(name, "H$") || strings.HasPrefix(name, "C$")) && strings.HasSuffix(name, "#ref") {
+		r := Var("r?", SInt)
+		x.vc.Assume(Forall([]*Term{r}, Ge(App("select", SInt, t, r), IntLit(0))))
+	}
+}
+
+// assumeWellFormed: a havocked slice header is still a slice header (0 <= len <= cap, nil has cap 0)
+func (x *Exec) assumeWellFormed(v *Term) {
+	if v.S != SSlice {
+		return
+	}
+	x.vc.Assume(And(Ge(SArr(v), IntLit(0)), Ge(SOff(v), IntLit(0)), Ge(SLen(v), IntLit(0)), Le(SLen(v), SCap(v)), Le(SCap(v), IntLit(1<<62)),
+		Implies(Eq(SArr(v), IntLit(0)), Eq(SCap(v), IntLit(0)))))
+}
+
 func fieldComp(structKey, field string, s *Sort, isRef bool) string {
 	n := "H$" + ident(structKey) + "$" + field
 	if isRef {
@@ -859,9 +885,12 @@ func (fr *Frame) cutHead(n *vnode) {
 			continue // component not yet touched: comp() creates it lazily at the entry version; force
 		}
 		if m.ref == nil {
-			n.heap[m.comp] = x.eng.FreshVar(m.comp, cur.S)
+			nv := x.eng.FreshVar(m.comp, cur.S)
+			x.initCompAxiomsWF(m.comp, nv)
+			n.heap[m.comp] = nv
 		} else {
 			row := x.eng.FreshVar(m.comp+"$row", cur.S.Elem)
+			x.assumeWellFormed(row)
 			n.heap[m.comp] = Store(cur, m.ref, row)
 		}
 	}
